@@ -306,8 +306,8 @@ def main(argv=None):
             prefixes = r.get("clauses", [pid + "."])
             try:
                 cases = []
-                for k in range(1, 4):
-                    cases += core.harness_cases(engine, "gen", max(r["quick"], 20000), seed * 104729 + k)
+                for k in range(1, 3):
+                    cases += core.harness_cases(engine, "gen", r["quick"], seed * 104729 + k)
                 for scope in r.get("enum_search", r.get("enum_thorough", [])):
                     cases += core.harness_cases(engine, "enum", scope, seed)
                 rows = core.run_engine(engine, cases, seed)
